@@ -135,6 +135,16 @@ def fresh(prefix, sort):
     return V("%s!%d" % (prefix, next(_fresh)), sort)
 
 
+# values the executor does not model exactly (the text of str(obj), of a %-format, of a template it cannot split):
+# an unconstrained constant stands for them.  That is sound for *proving* (the obligation then holds for every
+# value) but a counter-model that assigns such a constant is not a behaviour of the code: see solve.tainted()
+APPROX_PREFIX = "approx_"
+
+
+def approx(what, sort):
+    return V("%s%s!%d" % (APPROX_PREFIX, what, next(_fresh)), sort)
+
+
 def is_const(t):
     return t.op in ("int", "bool", "str")
 
